@@ -1,2 +1,214 @@
--- line-protocol driver for C11 (stub; replaced when the property is built)
-def main : IO Unit := IO.println "stub"
+import Verif.Model.AcmeChallenge
+/-!
+  Line-protocol driver for C11 (ACME challenge validators).
+
+  One case per line, `key=value` fields separated by single spaces; a string is `x<hex>`,
+  `!` is "none / error", a list is items joined by ',' (`-` when empty).
+
+    op=validate typ=http|dns|tls|da|wireoidc|wiredpop|unknown st=pending|valid|invalid|other perr=<errT>
+       val= tok= thumb=x..|! ip=x..|! strict=0|1 ph=<n> pt=<n> db=0|1 cmp=0|1
+       h=<pre>:<sha256>:<b64url sha256>,…                     (hash oracle table)
+       w=err | w=resp:<status>:<body|!>                       (http)
+       w=err | w=txt:<r1>;<r2>…  (`txt:-` = empty set)         (dns)
+       w=alert:<n> | w=other | w=conn:<proto>  leaf=0 | leaf=1 ldns=<list> lips=<list> exts=<id~crit~octets,…>   (tls)
+       w=da authz= json= errf= b64= empty= wf= cbor= fmt= en= fpne= azdb= + per-format facts (see `daIn?`)
+    op=types idt=ip|dns|pi|wu|wd|other raw=x..
+    op=rev ip=x..
+
+  Output (validate): `st=<status> err=<errT> ret=ok|ise fp=0|1 az=<authz status> tgt=<target>`, `crash`, `unmodelled`,
+  `mismatch`, `nohash` (the oracle table lacks a digest the model needs), `parse-error`.
+-/
+open Verif Verif.AcmeChallenge
+
+namespace C11
+
+def str? (t : String) : Option Str :=
+  if t.startsWith "x" then unhex (t.drop 1).toString else none
+
+def optStr? (t : String) : Option (Option Str) :=
+  if t = "!" then some none else (str? t).map some
+
+def bool? (t : String) : Option Bool :=
+  if t = "1" then some true else if t = "0" then some false else none
+
+def list? {α : Type} (sep : String) (f : String → Option α) (t : String) : Option (List α) :=
+  if t = "-" then some [] else (t.splitOn sep).mapM f
+
+def lookup (kv : List (String × String)) (k : String) : Option String :=
+  (kv.find? (·.1 = k)).map (·.2)
+
+def statusS : Status → String
+  | .pending => "pending" | .valid => "valid" | .invalid => "invalid" | .other => "other"
+def status? : String → Option Status
+  | "pending" => some .pending | "valid" => some .valid | "invalid" => some .invalid | "other" => some .other
+  | _ => none
+
+def errS : ErrT → String
+  | .none => "none" | .connection => "connection" | .dns => "dns"
+  | .rejectedIdentifier => "rejectedIdentifier" | .badAttestationStatement => "badAttestationStatement"
+def err? : String → Option ErrT
+  | "none" => some .none | "connection" => some .connection | "dns" => some .dns
+  | "rejectedIdentifier" => some .rejectedIdentifier
+  | "badAttestationStatement" => some .badAttestationStatement
+  | _ => none
+
+def typ? : String → Option ChType
+  | "http" => some .http01 | "dns" => some .dns01 | "tls" => some .tlsalpn01 | "da" => some .deviceAttest01
+  | "wireoidc" => some .wireOidc01 | "wiredpop" => some .wireDpop01 | "unknown" => some .unknown
+  | _ => none
+
+def typS : ChType → String
+  | .http01 => "http-01" | .dns01 => "dns-01" | .tlsalpn01 => "tls-alpn-01"
+  | .deviceAttest01 => "device-attest-01" | .wireOidc01 => "wire-oidc-01" | .wireDpop01 => "wire-dpop-01"
+  | .unknown => "unknown"
+
+def xs (a : Str) : String := "x" ++ hex a
+
+def targetS : Target → String
+  | .none => "-"
+  | .httpGet u => "get:" ++ xs u
+  | .txt n => "txt:" ++ xs n
+  | .tls a sni => "tls:" ++ xs a ++ ":" ++ xs sni
+
+def outcomeS (cmp : Bool) (o : Outcome) : String :=
+  s!"st={statusS o.status} err={errS o.err} ret={if o.ret = .ok then "ok" else "ise"} fp={if o.authzFp then 1 else 0} az={statusS (authzAfter o)} tgt={if cmp then targetS o.target else "?"}"
+
+/-- oracle table entry -/
+def hentry? (t : String) : Option (Str × Str × Str) :=
+  match t.splitOn ":" with
+  | [a, b, c] => do pure ((← str? a), (← str? b), (← str? c))
+  | _ => none
+
+def mkHash (tab : List (Str × Str × Str)) : Hash :=
+  { raw := fun x => ((tab.find? (·.1 = x)).map (·.2.1)).getD [],
+    b64 := fun x => ((tab.find? (·.1 = x)).map (·.2.2)).getD [] }
+
+def extId? : String → Option ExtId
+  | "acme" => some .acme | "obs" => some .acmeObsolete | "other" => some .other | _ => none
+
+def ext? (t : String) : Option Ext :=
+  match t.splitOn "~" with
+  | [i, c, o] => do pure ⟨(← extId? i), (← bool? c), (← optStr? o)⟩
+  | _ => none
+
+def x5c? (t : String) : Option X5c :=
+  match t.splitOn ":" with
+  | [p, n, l, r, c] => do pure ⟨(← bool? p), (← n.toNat?), (← bool? l), (← bool? r), (← bool? c)⟩
+  | _ => none
+
+def key? : String → Option KeyKind
+  | "ecp256" => some .ecP256 | "ecother" => some .ecOther | "rsa" => some .rsa
+  | "ed25519" => some .ed25519 | "unsupported" => some .unsupported | _ => none
+
+def serial? (t : String) : Option SerialExt :=
+  if t = "absent" then some .absent else if t = "malformed" then some .malformed
+  else if t = "trailing" then some .trailing
+  else match t.splitOn ":" with
+    | ["v", d] => (str? d).map .value
+    | _ => none
+
+def fmt? : String → Option AttFormat
+  | "apple" => some .apple | "step" => some .step | "tpm" => some .tpm | "other" => some .other | _ => none
+
+def pre? : String → Option TpmPre
+  | "ok" => some .ok | "bad" => some .bad | "noroots" => some .noRoots | _ => none
+
+def daIn? (kv : List (String × String)) : Option DaIn := do
+  let b (k : String) : Option Bool := do bool? (← lookup kv k)
+  let format ← fmt? (← lookup kv "fmt")
+  let facts : FmtFacts ←
+    match lookup kv "facts" with
+    | some "apple" => do
+      pure (.apple { x5c := (← x5c? (← lookup kv "x5c")), fpOk := (← b "fpok"),
+                     serial := (← str? (← lookup kv "serial")), udid := (← str? (← lookup kv "udid")),
+                     nonce := (← str? (← lookup kv "nonce")) })
+    | some "step" => do
+      let signed ← optStr? (← lookup kv "signed")
+      let sigv ← b "sigv"
+      pure (.step { x5c := (← x5c? (← lookup kv "x5c")), sigPresent := (← b "sigp"), sigCborOk := (← b "sigc"),
+                    key := (← key? (← lookup kv "key")),
+                    verifies := fun m => sigv && signed == some m,
+                    fpOk := (← b "fpok"), serial := (← serial? (← lookup kv "serial")) })
+    | some "tpm" => do
+      pure (.tpm { pre := (← pre? (← lookup kv "pre")),
+                   extraData := (← str? (← lookup kv "extra")), postBad := (← b "postbad"), fpOk := (← b "fpok"),
+                   permanentIdentifiers := (← list? "," str? (← lookup kv "pids")) })
+    | some "none" => pure .none
+    | _ => none
+  pure { authzOk := (← b "authz"), jsonOk := (← b "json"), errField := (← b "errf"), b64Ok := (← b "b64"),
+         emptyObj := (← b "empty"), cborWellformed := (← b "wf"), cborOk := (← b "cbor"),
+         format, enabled := (← b "en"), facts, fpNonEmpty := (← b "fpne"), authzDbOk := (← b "azdb") }
+
+def world? (kv : List (String × String)) : Option World := do
+  let w ← lookup kv "w"
+  match w.splitOn ":" with
+  | ["err"] => pure (if lookup kv "typ" = some "dns" then .txt none else .http .err)
+  | ["resp", st, body] => do pure (.http (.resp (← st.toInt?) (← optStr? body)))
+  | ["txt", l] => do pure (.txt (some (← list? ";" str? l)))
+  | ["alert", n] => do pure (.tls (.alert (← n.toNat?)))
+  | ["other"] => pure (.tls .other)
+  | ["conn", proto] => do
+    let p ← str? proto
+    if (← lookup kv "leaf") = "0" then pure (.tls (.conn none p))
+    else
+      let dns ← list? "," str? (← lookup kv "ldns")
+      let ips ← list? "," str? (← lookup kv "lips")
+      let exts ← list? "," ext? (← lookup kv "exts")
+      pure (.tls (.conn (some ⟨dns, ips, exts⟩) p))
+  | ["da"] => do pure (.attest (← daIn? kv))
+  | ["nothing"] => pure .nothing
+  | _ => none
+
+def idt? : String → Option IdType
+  | "ip" => some .ip | "dns" => some .dns | "pi" => some .permanentIdentifier
+  | "wu" => some .wireUser | "wd" => some .wireDevice | "other" => some .other | _ => none
+
+def evalValidate (kv : List (String × String)) : Option String := do
+  let typ ← typ? (← lookup kv "typ")
+  let status ← status? (← lookup kv "st")
+  let perr ← err? (← lookup kv "perr")
+  let value ← str? (← lookup kv "val")
+  let token ← str? (← lookup kv "tok")
+  let thumb ← optStr? (← lookup kv "thumb")
+  let ip ← optStr? (← lookup kv "ip")
+  let cfg : Cfg := ⟨(← bool? (← lookup kv "strict")), (← (← lookup kv "ph").toNat?), (← (← lookup kv "pt").toNat?)⟩
+  let dbOk ← bool? (← lookup kv "db")
+  let cmp ← bool? (← lookup kv "cmp")
+  let tab ← list? "," hentry? (← lookup kv "h")
+  let w ← world? kv
+  let ch : Ch := { typ, status, err := perr, value, token, thumb, ip }
+  -- every digest the model can ask for must be in the oracle table
+  let need : List Str := match typ, thumb with
+    | .dns01, some th | .tlsalpn01, some th => [keyAuth token th]
+    | .deviceAttest01, some th => [keyAuth token th, token]
+    | .deviceAttest01, none => [token]
+    | _, _ => []
+  if status = .pending ∧ need.any (fun p => !(tab.any (·.1 = p))) then pure "nohash"
+  else match validate (mkHash tab) cfg dbOk ch w with
+    | .done o => pure (outcomeS cmp o)
+    | .crash => pure "crash"
+    | .unmodelled => pure "unmodelled"
+    | .mismatch => pure "mismatch"
+
+def eval (line : String) : Option String := do
+  let kv := (fields line).filterMap fun f =>
+    match f.splitOn "=" with
+    | [k, v] => some (k, v)
+    | _ => none
+  match (← lookup kv "op") with
+  | "validate" => evalValidate kv
+  | "types" =>
+    let t ← idt? (← lookup kv "idt")
+    let raw ← str? (← lookup kv "raw")
+    let (v, w, tys) := newAuthorization t raw
+    pure s!"val={xs v} wild={if w then 1 else 0} types={if tys.isEmpty then "-" else ",".intercalate (tys.map typS)}"
+  | "rev" =>
+    let ip ← str? (← lookup kv "ip")
+    match reverseAddr ip with
+    | .val a => pure (xs a)
+    | .crash => pure "crash"
+  | _ => none
+
+end C11
+
+def main : IO Unit := Verif.lineLoop fun l => (C11.eval l).getD "parse-error"
